@@ -133,13 +133,15 @@ Definition Tok (i : nat) (t : thread) : Prop :=
      (1 <= i -> match t_pc t with
                 | PGate _ | PGateWait _ | PRead | PReadWait | PSend _ _ false | PSendWait _ _ false =>
                     t_cnt t = head_no t /\ head_no t <= N
+                | PSend _ _ true | PSendWait _ _ true => r_next (cur_r t) = S N
                 | _ => True
                 end)).
 
 Definition Inv (st : nstate) : Prop :=
   shape st /\
   (forall j, j < L -> Mok j (get_mb st j) /\ Sok (get_mb st j) (get_th st j) /\ Rok (get_mb st j) (get_th st (S j))) /\
-  (forall i, i <= L -> Tok i (get_th st i)).
+  (forall i, i <= L -> Tok i (get_th st i)) /\
+  (forall j, S j < L -> mb_closed (get_mb st (S j)) = true -> mb_closed (get_mb st j) = true).
 
 (* none of these looks at the woken flag *)
 Lemma Sok_weq m s s' : weq s s' -> Sok m s -> Sok m s'.
@@ -353,11 +355,13 @@ Lemma Inv_frame st st' tid k :
   (forall p, tid = S p -> Rok (get_mb st' p) (get_th st' tid)) ->
   (k < L -> S k <> tid -> Rok (get_mb st' k) (get_th st (S k))) ->
   Tok tid (get_th st' tid) ->
+  (k < L -> mb_closed (get_mb st' k) = mb_closed (get_mb st k) \/
+            (mb_closed (get_mb st' k) = true /\ forall p, k = S p -> mb_closed (get_mb st p) = true)) ->
   Inv st'.
 Proof.
-  intros [Hsh [Hmb Hth]] Hsh' Hfr Htid HM HS1 HS2 HR1 HR2 HT.
+  intros [Hsh [Hmb [Hth Hcc]]] Hsh' Hfr Htid HM HS1 HS2 HR1 HR2 HT HC.
   pose proof (sh_nt _ Hsh) as Hnt.
-  split; auto. split.
+  split; auto. split; [|split].
   - intros j Hj. destruct (Hmb j Hj) as [HMj [HSj HRj]].
     assert (Hgm : j <> k -> get_mb st' j = get_mb st j) by (intros Hne; apply (proj2 Hfr); auto).
     split; [|split].
@@ -370,6 +374,16 @@ Proof.
       destruct (Nat.eq_dec j k) as [->|Hne]; [auto | rewrite Hgm; auto].
   - intros i Hi. destruct (Nat.eq_dec i tid) as [->|Hne]; auto.
     apply (Tok_weq _ (get_th st i)); [eapply fr_get_th; eauto; lia | auto].
+  - intros j Hj Hc.
+    assert (Hgm : forall x, x <> k -> get_mb st' x = get_mb st x) by (intros; apply (proj2 Hfr); auto).
+    destruct (Nat.eq_dec (S j) k) as [E|E].
+    + rewrite (Hgm j) by lia. assert (Hk : k < L) by lia. destruct (HC Hk) as [Heq | [_ Hp]].
+      * rewrite <- E in Heq. rewrite Heq in Hc. apply (Hcc j Hj Hc).
+      * apply (Hp j). auto.
+    + rewrite (Hgm (S j)) in Hc by auto. pose proof (Hcc j Hj Hc) as Hcj.
+      destruct (Nat.eq_dec j k) as [E2|E2].
+      * subst j. assert (Hk : k < L) by lia. destruct (HC Hk) as [Heq | [Ht _]]; [rewrite Heq; auto | auto].
+      * rewrite Hgm by auto. auto.
 Qed.
 
 (* mailboxes as seen by Sok / Rok: only some fields matter *)
@@ -432,7 +446,7 @@ Definition looptop (p : pc) : Prop :=
 
 Lemma ready_top st i : Inv st -> i < L -> looptop (t_pc (get_th st i)) -> ready i (get_th st i).
 Proof.
-  intros [Hsh [Hmb Hth]] Hi Hp. destruct (Hth i (Nat.lt_le_incl _ _ Hi)) as [Hfi [Hns [_ Hst]]].
+  intros [Hsh [Hmb [Hth Hcc]]] Hi Hp. destruct (Hth i (Nat.lt_le_incl _ _ Hi)) as [Hfi [Hns [_ Hst]]].
   destruct (Hst Hi) as [Hrng [Hcl [Hcnt Hlink]]].
   split; [apply (sh_st _ Hsh); auto|]. split; auto. split; auto. split; auto.
   intros H1. destruct i as [|p]; [lia|].
@@ -490,7 +504,7 @@ Qed.
 Lemma Inv_sim st i t' :
   Inv st -> i <= L -> sim (get_th st i) t' -> shape (set_th st i t') -> Inv (set_th st i t').
 Proof.
-  intros HI Hi Hs Hsh'. pose proof HI as [Hsh [Hmb Hth]].
+  intros HI Hi Hs Hsh'. pose proof HI as [Hsh [Hmb [Hth Hcc]]].
   assert (Hlen : i < length (ths st)) by (rewrite (sh_nt _ Hsh); lia).
   apply (Inv_frame st _ i L HI Hsh' (fr_set_th i L st t')); try lia.
   - intros Hlt. gets. rewrite get_th_set_th_eq by auto. apply (sim_Sok _ _ _ Hs). apply (Hmb i Hlt).
@@ -523,7 +537,7 @@ Lemma gate_case st i (resume : bool) (oi : nat) :
   Inv (gate_region nt i resume st (get_th st i) oi).
 Proof.
   intros HI Hi Hnth Hpc. set (t := get_th st i) in *.
-  pose proof HI as [Hsh [Hmb Hth]].
+  pose proof HI as [Hsh [Hmb [Hth Hcc]]].
   assert (Hlen : i < length (ths st)) by (rewrite (sh_nt _ Hsh); lia).
   assert (Hk : t_kind t = KStage N i).
   { pose proof (sh_st _ Hsh i Hi) as Hs. unfold tsig, stage_sig in Hs. fold t in Hs. congruence. }
@@ -561,7 +575,7 @@ Lemma killout_case st i oi e :
   Inv (killout_region i st (get_th st i) oi e).
 Proof.
   intros HI Hi Hnth Hpc. set (t := get_th st i) in *.
-  pose proof HI as [Hsh [Hmb Hth]].
+  pose proof HI as [Hsh [Hmb [Hth Hcc]]].
   assert (Hlen : i < length (ths st)) by (rewrite (sh_nt _ Hsh); lia).
   assert (Hlm : i < length (mbs st)) by (rewrite (sh_nm _ Hsh); lia).
   assert (Hk : t_kind t = KStage N i).
@@ -596,6 +610,7 @@ Proof.
   - intros _ _. rewrite Hm'. eapply Rok_fields; [|exact HR].
     destruct (mb_killed (get_mb st i)); reflexivity.
   - rewrite Ht'. destruct Hpc' as [-> | ->]; apply Tok_leave; auto; exact I.
+  - intros _. left. rewrite Hm'. destruct (mb_killed (get_mb st i)); reflexivity.
 Qed.
 
 (* ---------- send ---------- *)
@@ -622,7 +637,7 @@ Lemma send_facts :
   i < length (ths st) /\ i < length (mbs st) /\ t_kind t = KStage N i /\ Mok i m /\ Sok m t /\
   Rok m (get_th st (S i)) /\ Tok i t /\ mb_closed m = false /\ t_pc t <> PReadWait /\ t_pc t <> PDone.
 Proof.
-  pose proof HI as [Hsh [Hmb Hth]].
+  pose proof HI as [Hsh [Hmb [Hth Hcc]]].
   destruct (Hmb i Hi) as [HM [HS HR]].
   assert (Hp1 : t_pc t <> PReadWait) by (rewrite Hpc; destruct resume; discriminate).
   assert (Hp2 : t_pc t <> PDone) by (rewrite Hpc; destruct resume; discriminate).
@@ -641,7 +656,7 @@ Lemma raise_ok :
   Inv (set_th st i (send_raise nt t cl (EKilled (mb_reason m)))).
 Proof.
   intros Hkd Hsh'. destruct send_facts as (Hlen & Hlm & Hk & HM & HS & HR & HT & Hcl & Hp1 & Hp2).
-  pose proof HI as [Hsh [Hmb Hth]].
+  pose proof HI as [Hsh [Hmb [Hth Hcc]]].
   assert (Ht' : exists p', send_raise nt t cl (EKilled (mb_reason m)) = set_pc t p' /\
                            match p' with PDone | PDead _ => True | PKillOut _ e => exn_code e = c | _ => False end).
   { unfold send_raise. rewrite Hk. destruct cl.
@@ -662,7 +677,7 @@ Lemma push_ok :
   shape (do_push nt i st t oi mg cl) -> Inv (do_push nt i st t oi mg cl).
 Proof.
   intros Hnk. destruct send_facts as (Hlen & Hlm & Hk & HM & HS & HR & HT & Hcl & Hp1 & Hp2).
-  pose proof HI as [Hsh [Hmb Hth]].
+  pose proof HI as [Hsh [Hmb [Hth Hcc]]].
   assert (HS2 : nth_error (MS N) (mb_nsent m) = Some mg /\ cl = is_stop mg /\
                 t_cnt t = (if cl then mb_nsent m else S (mb_nsent m))).
   { destruct HS as [_ HS]. specialize (HS Hnk). rewrite Hpc in HS. destruct resume; exact HS. }
@@ -707,6 +722,15 @@ Proof.
       apply Rok_leave; auto; try exact I.
     + intros _ _. rewrite Hm', Hmc. eapply Rok_fields; [|exact HR]. reflexivity.
     + rewrite Ht'. apply Tok_leave; auto; try exact I.
+    + intros _. right. rewrite Hm', Hmc. split; [reflexivity|]. intros p Ep.
+      assert (HRp : Rok (get_mb st p) t) by (unfold t; subst i; apply (Hmb p); lia).
+      destruct HRp as [[Hn _] _].
+      assert (HMp : Mok p (get_mb st p)) by (apply (Hmb p); lia).
+      assert (Hrn : r_next (cur_r t) = S N).
+      { destruct HT as (_ & _ & _ & H4). destruct (H4 Hi) as (_ & _ & _ & H5).
+        assert (H1 : 1 <= i) by lia. specialize (H5 H1). rewrite Hpc in H5. destruct resume; exact H5. }
+      rewrite (mo_closed _ _ HMp). apply Nat.eqb_eq.
+      pose proof (mo_le _ _ HMp). pose proof (mo_bound _ _ HMp). lia.
   - (* an ordinary send, then the top of the loop *)
     assert (Hlt : mb_nsent m < N) by (apply (MS_nonstop_lt _ _ _ Hnth); auto).
     set (t' := loop_start nt i st1 t).
@@ -727,6 +751,7 @@ Proof.
       rewrite Hw, Hpc. destruct resume; reflexivity.
     + intros _ _. rewrite Hm'. eapply Rok_fields; [|exact HR]. reflexivity.
     + rewrite Ht'. exact PT.
+    + intros _. left. rewrite Hm'. reflexivity.
 Qed.
 
 End Send.
@@ -843,7 +868,7 @@ Lemma read_case st p (resume : bool) :
   noticed L (read_region nt (S p) resume st (get_th st (S p))) c.
 Proof.
   intros HI Hp Hpc. set (tid := S p) in *. set (t := get_th st tid) in *.
-  pose proof HI as [Hsh [Hmb Hth]].
+  pose proof HI as [Hsh [Hmb [Hth Hcc]]].
   destruct (Hmb p Hp) as [HM [HSp HR]]. fold tid in HR. fold t in HR.
   assert (Htid : tid <= L) by (unfold tid; lia).
   pose proof (Hth tid Htid) as HT. fold t in HT.
@@ -896,6 +921,7 @@ Proof.
       * intros q Hq. assert (q = p) by (unfold tid in Hq; lia). subst q. rewrite Hm', Ht', Et'.
         apply (Rok_intro m m1 t); [exact Hrc | reflexivity | rewrite Hs1; exact Hx | rewrite Hs1; reflexivity | exact I].
       * rewrite Ht', Et'. apply Tok_leave; auto. cbn. apply (mo_reason _ _ HM); auto.
+      * intros _. left. rewrite Hm'. reflexivity.
   - rewrite orb_false_r. rewrite (has_lt p m HM). destruct (sb_nread (sub0 m) <? mb_nsent m) eqn:Elt.
     + (* data *)
       apply Nat.ltb_lt in Elt. rewrite (take_ok p m HM Elt). cbv beta iota.
@@ -947,6 +973,7 @@ Proof.
            ++ rewrite Ht3. unfold Tok. rewrite Q1, Q2, Q3, Q4, Qc, Hc1.
               change (t_fi t1) with (t_fi t). change (t_nstop t1) with (t_nstop t). cbn [r_next r_set_buf].
               repeat split; auto; try lia; try (intros E; specialize (Qk E); lia).
+           ++ intros _. left. rewrite Hg3. exact Hc3.
         -- fold ms in Hfire. right. left. split; [exact Hsh'|]. rewrite Ht3L. exact Hfire.
         -- fold ms in Hnot. right. right. unfold noticed. rewrite Ht3L, Hnot. reflexivity.
       * (* a stage goes on with its loop *)
@@ -981,6 +1008,7 @@ Proof.
         -- intros q Hq. assert (q = p) by (unfold tid in Hq; lia). subst q. rewrite Hg3, Ht3.
            apply PR; [unfold tid; lia | rewrite Hc1, Hs3; reflexivity | rewrite Hs3; reflexivity].
         -- rewrite Ht3. exact PT.
+        -- intros _. left. rewrite Hg3. exact Hc3.
     + (* nothing there yet *)
       destruct resume.
       * intros _ Hsh'. left. apply Inv_sim; auto. apply sim_woken.
@@ -1003,6 +1031,7 @@ Proof.
            ++ rewrite Hs1. unfold t'. cbn [t_pc set_pc set_woken]. unfold x. cbn [sb_wait sub_set_wait]. rewrite Hn. reflexivity.
            ++ unfold t'. cbn [t_pc set_pc set_woken]. auto.
         -- rewrite Ht'. apply Tok_rw; auto.
+        -- intros _. left. rewrite Hm'. reflexivity.
 Qed.
 
 (* ---------- one step ---------- *)
@@ -1028,7 +1057,7 @@ Proof. unfold enter_killall. destruct (n_kill nt); [contradiction | reflexivity]
 Lemma Inv_step st tid st' :
   Inv st -> nstep nt st tid = Some st' -> Inv st' \/ firing st' \/ noticed L st' c.
 Proof.
-  intros HI Hstep. pose proof HI as [Hsh [Hmb Hth]].
+  intros HI Hstep. pose proof HI as [Hsh [Hmb [Hth Hcc]]].
   unfold nstep in Hstep. destruct (nth_error (ths st) tid) as [t|] eqn:Et; [|discriminate].
   destruct (t_enabled nt st t) eqn:Een; [|discriminate]. inversion Hstep; subst st'. clear Hstep.
   assert (Hlt : tid < length (ths st)) by (apply nth_error_Some; congruence).
@@ -1061,7 +1090,7 @@ Proof.
     - exfalso. destruct HT4 as [H4 _]; [apply Hstage; discriminate | exact H4]. }
   destruct HX as [HIX | [HfX | HnX]].
   - left. rewrite settle_other; auto.
-    intros k exc. apply (Tok_not_join tid); auto. destruct HIX as [_ [_ H]]. apply H. auto.
+    intros k exc. apply (Tok_not_join tid); auto. destruct HIX as [_ [_ [H _]]]. apply H. auto.
   - destruct HfX as [_ [e [E1 [E2 E3]]]].
     destruct (Nat.eq_dec tid L) as [->|Hne].
     + right. left. rewrite settle_other by (intros k exc; rewrite E1; discriminate).
@@ -1154,7 +1183,7 @@ Lemma stuck_step j :
   j < L -> (forall j', S j' = j -> t_pc (get_th st (S j')) = PReadWait -> False) ->
   t_pc (get_th st (S j)) = PReadWait -> False.
 Proof.
-  intros Hj IH Hpc. pose proof HI as [Hsh [Hmb Hth]].
+  intros Hj IH Hpc. pose proof HI as [Hsh [Hmb [Hth Hcc]]].
   destruct (Hmb j Hj) as [HM [HS HR]].
   pose proof (Hth j (Nat.lt_le_incl _ _ Hj)) as HTs.
   pose proof (Hth (S j) Hj) as HTr.
@@ -1209,7 +1238,7 @@ Qed.
 
 Lemma no_deadlock : False.
 Proof.
-  pose proof HI as [Hsh [Hmb Hth]].
+  pose proof HI as [Hsh [Hmb [Hth Hcc]]].
   destruct (Hth L (le_n _)) as (_ & _ & H3 & _).
   pose proof (q_disabled L (le_n _)) as Hen. unfold t_enabled in Hen.
   destruct (H3 eq_refl) as [[E|E] _]; rewrite E in Hen; [discriminate|].
@@ -1258,7 +1287,7 @@ Proof.
                 t_cnt (get_th (start_all nt st0) L) = 0).
   { rewrite Hth by (unfold st0; cbn [ths]; lia). unfold get_th, st0. cbn [ths]. rewrite Hmain. cbn. auto. }
   destruct Hmn as (Q1 & Q2 & Q3 & Q4 & Q5).
-  split; [auto|]. split.
+  split; [auto|]. split; [|split].
   - intros j Hj. rewrite Hgm. destruct (Hbox j Hj) as [cap [E Hc]].
     assert (Em : get_mb st0 j = mk_mbox cap lz [true]) by (unfold get_mb, st0; cbn [mbs]; auto).
     rewrite Em. split; [apply Mok0|]. split.
@@ -1270,6 +1299,8 @@ Proof.
   - intros i Hi. destruct (Nat.eq_dec i L) as [->|E].
     + unfold Tok. rewrite Q1, Q2, Q3, Q4, Q5. cbn. repeat split; auto; lia.
     + destruct (Hstage i) as [PT _]; [lia|]. exact PT.
+  - intros j Hj Hc. rewrite Hgm in Hc. destruct (Hbox (S j) Hj) as [cap [E _]].
+    unfold get_mb, st0 in Hc. cbn [mbs] in Hc. rewrite E in Hc. discriminate.
 Qed.
 
 Hypothesis Hcov : cover nt st0 L.
